@@ -27,7 +27,8 @@ fn method_of(form: usize, idx: usize, rts: &[(&'static str, Ty)], same_name: boo
     m
 }
 
-/// variant: 0 plain, 1 constant first, 2 constant between, 3 all methods share one name
+/// variant: 0 plain, 1 constant first, 2 constant between, 3 all methods share one name,
+/// 4 every method carries annotations
 fn make_case(forms: &[usize], iface_oneway: bool, variant: usize) -> Case {
     let rts = return_types();
     let mut item = Item::new(ItemKind::Interface, "Obs");
@@ -40,7 +41,12 @@ fn make_case(forms: &[usize], iface_oneway: bool, variant: usize) -> Case {
         if variant == 2 && i == 1 {
             item.members.push(k.clone());
         }
-        item.members.push(Member::Method(method_of(*f, i, &rts, variant == 3)));
+        let mut m = method_of(*f, i, &rts, variant == 3);
+        if variant == 4 {
+            m.annots.push(Annot::simple("@Deprecated"));
+            m.annots.push(crate::model::seeds::annot_with("@A", vec![("k", Some(Scalar::Integer("1".into())))], false));
+        }
+        item.members.push(Member::Method(m));
     }
     let mut files = support();
     files.push(ProjFile::from_doc("obs", observed_header(item)));
@@ -55,6 +61,9 @@ fn make_case(forms: &[usize], iface_oneway: bool, variant: usize) -> Case {
                 regions.push(Loc::exact(r.start(mm.oneway_tok), r.end(mm.oneway_tok)));
             }
             regions.push(Loc::exact(r.start(mm.ret.sym.first), r.end(mm.ret.sym.last)));
+            if mm.ret.full != mm.ret.sym {
+                regions.push(Loc::exact(r.start(mm.ret.full.first), r.end(mm.ret.full.last)));
+            }
         }
     }
     let recs: Vec<Rec> = exp
@@ -74,7 +83,7 @@ fn make_case(forms: &[usize], iface_oneway: bool, variant: usize) -> Case {
                 .map(|f| format!("{}{}", if f % 2 == 1 { "oneway " } else { "" }, rts[f / 2].0))
                 .collect::<Vec<_>>()
                 .join(", "),
-            ["plain", "constant first", "constant between", "same method name"][variant]
+            ["plain", "constant first", "constant between", "same method name", "annotated methods"][variant]
         ),
         files: files.iter().map(|f| (f.id.clone(), f.text.clone())).collect(),
         expect,
@@ -122,16 +131,16 @@ pub fn run(tier: Tier, seed: u64) -> i32 {
             }
         }
     }
-    let n = lists.len() * 2 * 4;
+    let n = lists.len() * 2 * 5;
     super::drive(
         &stats,
         n,
         1,
         |i| {
-            let variant = i % 4;
-            let io = (i / 4) % 2 == 1;
-            let l = &lists[i / 8];
-            if (variant == 2 && l.len() < 2) || (variant == 3 && l.len() < 2) || (variant == 1 && l.is_empty()) {
+            let variant = i % 5;
+            let io = (i / 5) % 2 == 1;
+            let l = &lists[i / 10];
+            if (variant == 2 && l.len() < 2) || (variant == 3 && l.len() < 2) || (variant == 1 && l.is_empty()) || (variant == 4 && l.is_empty()) {
                 return None;
             }
             stats.nontrivial(fnv(&format!("{l:?}{io}{variant}")));
@@ -143,13 +152,13 @@ pub fn run(tier: Tier, seed: u64) -> i32 {
         },
         check_case,
     );
-    stats.space(json!({"space": "method lists", "forms": nforms, "return_types": rts.iter().map(|r| r.0).collect::<Vec<_>>(), "lists": lists.len(), "interface_oneway": 2, "variants": ["plain", "constant first", "constant between", "same method name"]}));
+    stats.space(json!({"space": "method lists", "forms": nforms, "return_types": rts.iter().map(|r| r.0).collect::<Vec<_>>(), "lists": lists.len(), "interface_oneway": 2, "variants": ["plain", "constant first", "constant between", "same method name", "annotated methods"]}));
     let all = ["redundant-oneway", "oneway-must-return-void", "none"]
         .iter()
         .all(|c| stats.outcome_count(&format!("class:{c}")) > 0);
     finish(
         &stats,
-        "interface oneway x every method list of length <= 1 over (method oneway x 19 return-type categories), pairs over the stated subset, triples over a 4-category core, each plain / with a constant first / with a constant in between / with all methods sharing one name; the oneway flag of every method in the returned tree, the Warnings on `oneway` keywords and the Errors on return types are compared with the statement; distinct_nontrivial counts distinct (list, interface oneway, variant) tuples",
+        "interface oneway x every method list of length <= 1 over (method oneway x 19 return-type categories), pairs over the stated subset, triples over a 4-category core, each plain / with a constant first / with a constant in between / with all methods sharing one name / with annotated methods; the oneway flag of every method in the returned tree, the Warnings on `oneway` keywords and the Errors on return types are compared with the statement; distinct_nontrivial counts distinct (list, interface oneway, variant) tuples",
         &[
             "return-type categories are reached through real resolution (three supporting files)",
             "diagnostics are compared on the `oneway` keyword spans and return-type name spans (container Errors located there come from the same reference)",
